@@ -11,9 +11,9 @@ for d in seeded/*/; do
     C08) bin=tshim/bin/econt;;
     C19) bin=plain/bin/etl;;
     C14) bin=plain/bin/efs;;
-    C01|C03) bin=small/bin/eion;;
+    C01|C03) bin=small/bin/eion; grep -q "^+++ b/src/TaskBasedRadiationHydrodynamicsSimulation.cpp" "$d/patch.diff" && bin=small/bin/erhd;;
     C13) bin=small/bin/eion; grep -q "^+++ b/src/RandomGenerator.hpp" "$d/patch.diff" && bin=plain/bin/erng;;
-    C12) bin=asan/bin/eion; grep -qE "Hydro|Alvelius|LiveOutput|SurfaceDensity|RadiationHydro" "$d/patch.diff" && bin=asan/bin/erhd;;
+    C12) bin=asan/bin/eion; grep -qE "Hydro|Alvelius|LiveOutput|SurfaceDensity|RadiationHydro|PhotonSourceDistribution" "$d/patch.diff" && bin=asan/bin/erhd;;
     *) bin=small/bin/erhd;;
   esac
   patch="$d/patch.diff"; [ -f "$d/patch-rebased.diff" ] && patch="$d/patch-rebased.diff"
